@@ -451,6 +451,10 @@ func (w *gWorld) goValue(v *gDVal) interface{} {
 		return w.objs[v.ref]
 	case "tnil":
 		return typedNil(v.s)
+	case "tnilmap":
+		return map[string]interface{}(nil) // a nil map with a type: null to GraphQL
+	case "tnilslice":
+		return []*T0(nil)
 	case "list":
 		if w.lists == nil {
 			w.lists = map[*gDVal]interface{}{}
